@@ -123,7 +123,8 @@ if __name__ == "__main__":
     generic.finish(run, PROP, au, cs, n, dis,
                    "seeded random histories over apply (all gate kinds, controls, daggers, qft) / measure_mask / tensor products "
                    "(both sides, *=) / set_num on 0..6 qubits (30 % under num_threads(2|3|5|6|7), plus systematic threaded histories on 4-6 qubits), raw buffer dumped after every step, reported norm and probabilities, compared with the model "
-                   "fed with the implementation's outcomes; plus a measure/re-superpose loop of 200 (2000) rounds",
+                   "fed with the implementation's outcomes; plus a measure/re-superpose loop of 200 (2000) rounds; plus histories on 15-16 "
+                   "qubits (serial and threaded, gates and controls on the highest qubits) judged on the implementation alone",
                    assumptions=["measurement outcomes are taken from the implementation (seedable RNG hook) and fed to the model",
                                 "float thresholds of normalize (1e-15, 1e-9) are evaluated at binary64 in the model run and are "
                                 "idealised over R in the theorem"],
